@@ -36,3 +36,10 @@ package tsdb
 //@   lock_handoff returns the read lock of f.refs held; the release function it returns is f.refs.RUnlock (callers defer it)
 //@ func (*SeriesIDSet).Merge
 //@   lock_handoff the read locks of the other sets are taken in the loop and released by deferred calls when the function returns; the function as a whole is balanced, an iteration is not
+
+// DeleteShard looks the shard's epoch tracker up in its second critical section (s.Shard took and released the read
+// lock before). A second delete of the same shard that gets here after the first one finished finds no tracker -
+// and a closed shard: sh.Index() fails ("engine is closed") and the function returns before the tracker is used.
+// Replayed with a schedule point that holds the second delete until the first is done.
+//@ func (*Store).DeleteShard
+//@   absent_entry_unused Store.epochs the shard is closed by then: sh.Index() fails and DeleteShard returns before epoch.StartWrite (schedule replayed on the real code)
